@@ -61,7 +61,7 @@ PROP_CONFIGS = {
 ASSUMPTIONS = {
     "_all": [
         "the scripted children honour the Future/Stream contracts and the harness executor honours the caller side (no poll after Ready/None, in particular never a poll of the combinator after its own final result)",
-        "wake-ups from other threads are generated as wakes that land between polls or inside a child's poll (all readiness state is behind one mutex that is released only around child polls); truly simultaneous execution on two cores is not explored",
+        "wake-ups from other threads: the scripted schedules fire wakers between polls, inside a child's poll and from joined helper threads; truly simultaneous wake-ups (helper threads invoking wakers while the task thread polls, mutates a group or drops the combinator) are explored only by the storm phase of the std configurations, whose interleavings are chosen by the OS scheduler, not enumerated",
     ],
     "_comb": [
         "generated search: bounded sizes (tuples <= 12, Vec <= 12 and now and then / in the thorough tier often the boundary lengths 22..24, 63..66, 100, 128, 129, 200; scripts <= 10 steps, schedules <= 40 actions, nesting depth 1, group histories <= 40 / 120 operations)",
@@ -469,6 +469,12 @@ def crash_replay(prop, cfg):
     """Turn the case published by the crash handler into a replay file and
     confirm that replaying it alone crashes again."""
     binpath = os.path.join(REPLAYS, "crash-%s-%s.bin" % (prop, cfg_label(cfg)))
+    engine = "harness"
+    if not os.path.exists(binpath):
+        # the storm phase (wakers invoked by helper threads) decodes the same
+        # bytes differently, so its crash file is kept apart
+        binpath = os.path.join(REPLAYS, "crash-%s-%s.storm.bin" % (prop, cfg_label(cfg)))
+        engine = "storm"
     if not os.path.exists(binpath):
         return None
     with open(binpath, "rb") as f:
@@ -478,7 +484,7 @@ def crash_replay(prop, cfg):
     h = hashlib.sha1(data).hexdigest()[:16]
     path = os.path.join(REPLAYS, "%s-%s-crash-%s.json" % (prop, cfg_label(cfg), h))
     with open(path, "w") as f:
-        json.dump({"property": prop, "config": cfg_label(cfg), "engine": "harness", "crash": True,
+        json.dump({"property": prop, "config": cfg_label(cfg), "engine": engine, "crash": True,
                    "bytes": data.hex()}, f, indent=1)
         f.write("\n")
     p = subprocess.run([binary(cfg), "replay", "--file", path, "--prop", prop], env=env(),
